@@ -13,12 +13,17 @@ def rustIsWhitespace (c : Char) : Bool :=
   (9 ≤ n && n ≤ 13) || n == 0x20 || n == 0x85 || n == 0xa0 || n == 0x1680 || (0x2000 ≤ n && n ≤ 0x200a) ||
   n == 0x2028 || n == 0x2029 || n == 0x202f || n == 0x205f || n == 0x3000
 
+/-- non-ASCII alphabetic characters the generators use: é Ω ß 中 𝐀 -/
+def extraAlpha : List Nat := [0xe9, 0x3a9, 0xdf, 0x4e2d, 0x1d400]
+/-- non-ASCII numeric (not alphabetic) characters the generators use: ٣ ½ and the fullwidth digits -/
+def extraNum : List Nat := [0x663, 0xbd, 0xff10, 0xff11, 0xff12, 0xff13, 0xff14, 0xff15, 0xff16, 0xff17, 0xff18, 0xff19]
+
 /-- Rust's `char::is_alphanumeric`, on the characters the generators use: ASCII plus a few samples -/
 def rustIsAlphanumeric (c : Char) : Bool :=
-  c.isAlphanum || c == 'é' || c == 'Ω' || c == '٣' || c == '½' || c == 'ß'
+  c.isAlphanum || extraAlpha.contains c.toNat || extraNum.contains c.toNat
 
 /-- Rust's `char::is_alphabetic` on the same character set -/
-def rustIsAlphabetic (c : Char) : Bool := c.isAlpha || c == 'é' || c == 'Ω' || c == 'ß'
+def rustIsAlphabetic (c : Char) : Bool := c.isAlpha || extraAlpha.contains c.toNat
 
 def cc : Asm.CharClass := { isWs := rustIsWhitespace, isAlnum := rustIsAlphanumeric, isAlpha := rustIsAlphabetic }
 
